@@ -1530,6 +1530,8 @@ package log
 // here, or one registered by the application); the references of a (sync or async) logger are distinct
 // non-nil objects created by injectElement.
 //@ spec fun plugOf(v reflect.Value) any = reflect.Value.Interface(v)
+// every class registered as an appender (a logger) is one: a pointer to it implements the interface
+//@ spec fun classesImplement() bool = (forall n string, x any :: has(pluginRegistry, PluginTypeAppender) && has(pluginRegistry[PluginTypeAppender], n) && iftag(x) == ptrTag(pluginRegistry[PluginTypeAppender][n].Class) ==> implements(x, Appender)) && (forall n string, x any :: has(pluginRegistry, PluginTypeLogger) && has(pluginRegistry[PluginTypeLogger], n) && iftag(x) == ptrTag(pluginRegistry[PluginTypeLogger][n].Class) ==> implements(x, Logger))
 //@ spec fun hasRefs(x any) bool = dyn(x, *SyncLogger) || dyn(x, *AsyncLogger)
 //@ spec fun registeredLogger(x any) bool = (hasRefs(x) || dyn(x, *DiscardLogger) || dyn(x, *ConsoleLogger) || dyn(x, *FileLogger) || dyn(x, *RollingFileLogger)) && ifval(x) != 0
 //@ spec fun refsOf(x any) *AppenderRefs = dyn(x, *SyncLogger) ? as(x, *SyncLogger).AppenderRefs : as(x, *AsyncLogger).AppenderRefs
@@ -1691,12 +1693,15 @@ package log
 // Plugin construction is reflection-driven (NewPlugin, inject*): assumed to write only objects it creates
 // itself and to hand back a fresh non-nil plugin of the requested kind (whose appender references, if it
 // has any, are fresh and distinct), or an error.
+//@ lemma[C15:the-key-of-a-type-attribute-has-a-parent when has_suffix] forall k string :: { str_last(k, '.') } str_wf(k) && has_suffix(k, ".type") ==> str_last(k, '.') == len(k) - 5
 //@ func Refresh/newPlugin
-//@   trusted
-//@   modifies nothing
-//@   ensures result1 == nil ==> plugOf(result0) != nil && fresh(ifval(plugOf(result0)))
-//@   ensures result1 == nil && typ == PluginTypeAppender ==> implements(plugOf(result0), Appender)
-//@   ensures result1 == nil && typ == PluginTypeLogger ==> implements(plugOf(result0), Logger) && (hasRefs(plugOf(result0)) ==> refsFresh(refsOf(plugOf(result0)))) && !isold(sref(refsOf(plugOf(result0)).AppenderRefs))
+//@   requires s != nil && typeConverters != nil && pluginsWF() && classesImplement() && has_suffix(typeKey, ".type")
+//@   modifies rvSets, rvStr, rvInt, rvBool, rvVal, stHas[s], stVal[s], stNode[s]
+//@   nopanic[C15]
+//@   ensures[C15:the-type-attribute-is-required] !old(stNode[s][typeKey]) ==> result1 != nil
+//@   ensures[C15:an-unknown-plugin-type-is-an-error] old(stHas[s][typeKey]) && old(stVal[s][typeKey]) != "[]" && old(stVal[s][typeKey]) != "{}" && old(stVal[s][typeKey]) != "<nil>" && !(has(pluginRegistry, typ) && has(pluginRegistry[typ], old(stVal[s][typeKey]))) ==> result1 != nil
+//@   ensures[C15,C16:a-new-object-of-the-requested-kind] result1 == nil ==> plugOf(result0) != nil && fresh(ifval(plugOf(result0))) && (typ == PluginTypeAppender ==> implements(plugOf(result0), Appender)) && (typ == PluginTypeLogger ==> implements(plugOf(result0), Logger))
+//@   assumes result1 == nil && typ == PluginTypeLogger ==> (hasRefs(plugOf(result0)) ==> refsFresh(refsOf(plugOf(result0)))) && !isold(sref(refsOf(plugOf(result0)).AppenderRefs))
 
 //@ iface Appender.GetName
 //@   pure
@@ -1720,6 +1725,7 @@ package log
 //@ func Refresh
 //@   callee findLoggerForTag = Refresh/findLoggerForTag
 //@   requires regWF() && regTagged() && propsWF() && liveListsWF()
+//@   requires typeConverters != nil && pluginsWF() && classesImplement()
 //@   modifies everything
 //@   nopanic[C02,C12,C15,C16]
 //@   ghost cfgTags = cTags
